@@ -433,7 +433,7 @@ func (f *Frame) asTerm(x Value, typ types.Type, st *State) *Term {
 	case *Closure:
 		return f.closureTerm(x)
 	case *FuncRef:
-		return uf("fnref$"+sanitize(shortName(x.Fn)), sortInt)
+		return fnrefTerm(x.Fn)
 	case *ssa.Builtin:
 		return fresh("builtin", sortInt)
 	case *RangeIter:
@@ -1772,4 +1772,12 @@ func realDiv(x, y *Term) *Term {
 		return mk("/", sortReal, x, y)
 	}
 	return uf("real_div", sortReal, x, y)
+}
+
+// fnrefTerm: the value of a named function used as an operand; never nil.
+func fnrefTerm(fn *ssa.Function) *Term {
+	name := "fnref$" + sanitize(shortName(fn))
+	t := uf(name, sortInt)
+	addAxiom("fnref_nonnil:"+name, tGt(t, tInt(0)), name)
+	return t
 }
